@@ -81,6 +81,37 @@ class Real(Value):
         return 1
 
 
+class LenTok(Real):
+    """the length n = 2a + p of an axis (an entry of .shape)"""
+
+    def __repr__(self):
+        return 'n'
+
+
+class NegLen(Real):
+    """-n"""
+
+    def __repr__(self):
+        return '-n'
+
+
+class HalfReal(Real):
+    """n / 2 (true division): a + p/2"""
+
+    def __repr__(self):
+        return 'n/2'
+
+
+class IxV(Value):
+    """an integer position u*a + w computed from the length of the axis"""
+
+    def __init__(self, ix):
+        self.ix = ix
+
+    def __repr__(self):
+        return 'IxV(%r)' % (self.ix,)
+
+
 class OriginDomain(Domain):
     name = 'ORIGIN'
 
@@ -102,6 +133,31 @@ class OriginDomain(Domain):
         a0 = args[0] if args else None
         if dotted == 'builtins.callable' and isinstance(a0, (Og, Real)):
             return Const(False)
+        # positions computed from the shape: n//2 = a, floor(n/2) = a, ceil(n/2) = a + p, -n//2 = -(a + p)
+        if last == 'floor' and isinstance(a0, HalfReal):
+            return IxV(half(self.p))
+        if last == 'ceil' and isinstance(a0, HalfReal):
+            return IxV(Ix(1, self.p, self.p))
+        if last == 'int' and isinstance(a0, (IxV, HalfReal)):
+            return a0 if isinstance(a0, IxV) else IxV(half(self.p))
+        if last in ('round', 'rint', 'around') and isinstance(a0, HalfReal):
+            # n even: n/2 exactly.  n odd: a + 1/2 rounds to the even neighbour, which is a + 1 whenever a is odd
+            return IxV(half(self.p) if self.p == 0 else Ix(1, 1, self.p))
+        if last == 'roll' and isinstance(a0, Og):
+            sh = args[1] if len(args) > 1 else kwargs.get('shift')
+            items = sh.items if isinstance(sh, Tup) else [sh]
+            ixs = []
+            for x in items:
+                if isinstance(x, IxV):
+                    ixs.append(x.ix)
+                elif isinstance(x, Const) and isinstance(x.v, int) and not isinstance(x.v, bool):
+                    ixs.append(Ix(0, x.v, self.p))
+                else:
+                    return Unknown('roll by an amount that is not followed')
+            if not ixs or any(i != ixs[0] for i in ixs):
+                return Unknown('roll by different amounts per axis')
+            self.interp.emit('shift', which='roll', node=node, before=a0)
+            return Og(a0.o + ixs[0], a0.r, a0.kind)
         if last in ('fftshift', 'ifftshift') and isinstance(a0, Og):
             if 'axes' in kwargs or len(args) > 1:
                 return Unknown('shift with axes')
@@ -149,7 +205,9 @@ class OriginDomain(Domain):
                 return self._real(v, node)
             if name in ('T',):
                 return v
-            if name in ('shape', 'dtype', 'ndim', 'size'):
+            if name == 'shape':
+                return Tup([LenTok(), LenTok()])
+            if name in ('dtype', 'ndim', 'size'):
                 return Real()
         if isinstance(v, Real):
             return Real()
@@ -168,6 +226,20 @@ class OriginDomain(Domain):
         return None
 
     def binop(self, op, a, b, node):
+        if isinstance(b, Const) and b.v == 2 and not isinstance(b.v, bool):
+            if isinstance(a, LenTok):
+                if isinstance(op, ast.FloorDiv):
+                    return IxV(half(self.p))
+                if isinstance(op, ast.Div):
+                    return HalfReal()
+            if isinstance(a, NegLen) and isinstance(op, ast.FloorDiv):
+                return IxV(Ix(-1, -self.p, self.p))
+        if isinstance(a, IxV) or isinstance(b, IxV):
+            ia = a.ix if isinstance(a, IxV) else (Ix(0, a.v, self.p) if isinstance(a, Const) and isinstance(a.v, int) and not isinstance(a.v, bool) else None)
+            ib = b.ix if isinstance(b, IxV) else (Ix(0, b.v, self.p) if isinstance(b, Const) and isinstance(b.v, int) and not isinstance(b.v, bool) else None)
+            if ia is not None and ib is not None and isinstance(op, (ast.Add, ast.Sub)):
+                return IxV(ia + ib if isinstance(op, ast.Add) else ia - ib)
+            return Unknown('index arithmetic that is not followed')
         if isinstance(a, Og) and isinstance(b, Og):
             if isinstance(op, (ast.Mult, ast.Div, ast.Add, ast.Sub)):
                 if a.o != b.o:
@@ -197,6 +269,15 @@ class OriginDomain(Domain):
         return None
 
     def unary(self, op, a, node):
+        if isinstance(op, ast.USub):
+            if isinstance(a, LenTok):
+                return NegLen()
+            if isinstance(a, NegLen):
+                return LenTok()
+            if isinstance(a, IxV):
+                return IxV(-a.ix)
+            if isinstance(a, HalfReal):
+                return Real()
         if isinstance(a, (Og, Real)):
             return a
         return None
@@ -216,7 +297,7 @@ class OriginDomain(Domain):
         return None
 
     def iterate(self, v, node):
-        if isinstance(v, Real):
+        if isinstance(v, Real) and not isinstance(v, (LenTok, NegLen, HalfReal)):
             return [Real(), Real()]        # a shape pair
         return None
 
